@@ -40,14 +40,40 @@ namespace sqf::parser::sqf::bison
         ::sqf::parser::sqf::tokenizer::token token;
         astkind kind;
         std::vector<astnode> children;
+        // Height of the tree below (and including) this node. Code generation recurses once per
+        // level, the parser refuses trees that are too high (see sqf_parser.cpp).
+        size_t depth = 1;
 
         astnode() : token(), kind(astkind::NA) { }
         astnode(astkind kind) : token(), kind(kind) { }
         astnode(::sqf::parser::sqf::tokenizer::token t) : token(t), kind(astkind::__TOKEN) { }
         astnode(astkind kind, ::sqf::parser::sqf::tokenizer::token t) : token(t), kind(kind) { }
+        astnode(const astnode&) = default;
+        astnode(astnode&&) = default;
+        astnode& operator=(const astnode&) = default;
+        astnode& operator=(astnode&&) = default;
+        // Destroys the tree without recursing once per level (a tree can be as high as the
+        // input is long, e.g. "1 + 1 + 1 + ...").
+        ~astnode()
+        {
+            if (children.empty()) { return; }
+            std::vector<astnode> work;
+            work.swap(children);
+            while (!work.empty())
+            {
+                astnode node = std::move(work.back());
+                work.pop_back();
+                for (auto& child : node.children)
+                {
+                    work.push_back(std::move(child));
+                }
+                node.children.clear();
+            }
+        }
 
         void append(astnode node)
         {
+            if (node.depth + 1 > depth) { depth = node.depth + 1; }
             children.push_back(std::move(node));
         }
         void append_children(const astnode& other)
@@ -61,6 +87,7 @@ namespace sqf::parser::sqf::bison
         {
             for (auto& node : other.children)
             {
+                if (node.depth + 1 > depth) { depth = node.depth + 1; }
                 children.push_back(std::move(node));
             }
             other.children.clear();
